@@ -6,129 +6,27 @@
 //! is one without which the case no longer fails. The signature names the first such feature in a
 //! fixed order plus the option values that are still needed.
 
-use vcore::ty::{TVal, Ty, VariantTy};
 use vcore::tygen::{self, Minimal, Opt};
 
-fn seq_like(k: &str) -> bool {
-    matches!(k, "seq" | "tuple" | "tuple-struct")
-}
-fn map_like(k: &str) -> bool {
-    matches!(k, "map" | "struct" | "newtype-variant" | "struct-variant" | "tuple-variant")
-}
-
-fn is_complex_key_ty(t: &Ty) -> bool {
-    match t.peel_newtypes() {
-        Ty::Option(inner) => is_complex_key_ty(inner),
-        Ty::Enum(e) => e.variants.iter().any(|v| !matches!(v, VariantTy::Unit)),
-        t => !t.is_scalar(),
-    }
-}
-
-/// First structural trigger present in the minimal case (fixed priority).
-pub fn trigger(ty: &Ty, v: &TVal) -> String {
-    if tygen::any_node(ty, v, &|t, _| matches!(t, Ty::TupleStruct(..))) {
-        return "tuple-struct".into();
-    }
-    if tygen::any_node(ty, v, &|t, x| tygen::kind(t, x) == "tuple-variant") {
-        return "tuple-variant".into();
-    }
-    if tygen::any_node(ty, v, &|_, x| matches!(x, TVal::Str(s) if s.contains('\r'))) {
-        return "string-with-carriage-return".into();
-    }
-    if tygen::any_node(ty, v, &|t, x| match (t, x) {
-        (Ty::Map(..), TVal::Map(ps)) => ps.iter().any(|(k, _)| matches!(k, TVal::Str(s) if s.chars().count() > 1024)),
-        _ => false,
-    }) {
-        return "key-longer-than-1024".into();
-    }
-    // complex keys
-    let mut ck: Option<&'static str> = None;
-    let mut note = |s: &'static str| {
-        // priority inside the class: seq-value > seq-key > map-key
-        let rank = |x: &str| match x {
-            "complex-key:sequence-value" => 3,
-            "complex-key:sequence-key" => 2,
-            _ => 1,
-        };
-        if ck.map(|c| rank(c) < rank(s)).unwrap_or(true) {
-            ck = Some(s);
-        }
-    };
-    fn walk(ty: &Ty, v: &TVal, note: &mut dyn FnMut(&'static str)) {
-        if let (Ty::Map(k, w), TVal::Map(ps)) = (ty.peel_newtypes(), v)
-            && is_complex_key_ty(k)
-        {
-            for (a, b) in ps {
-                let vk = tygen::kind(w, b);
-                let kk = tygen::kind(k, a);
-                if seq_like(vk) {
-                    note("complex-key:sequence-value");
-                } else if seq_like(kk) {
-                    note("complex-key:sequence-key");
-                } else {
-                    note("complex-key:mapping-key");
-                }
-            }
-        }
-        match (ty, v) {
-            (Ty::Newtype(_, t), x) => walk(t, x, note),
-            (Ty::Option(t), TVal::Some(x)) => walk(t, x, note),
-            _ => {
-                for (_, t, x) in tygen::children(ty, v) {
-                    walk(t, x, note);
-                }
-            }
-        }
-    }
-    walk(ty, v, &mut note);
-    if let Some(c) = ck {
-        return c.into();
-    }
-    let mut empty = false;
-    let mut nested_seq = false;
-    let mut map_in_seq = false;
-    let mut block = false;
-    tygen::contexts(ty, v, &mut |p, pos, c| {
-        if c == "seq-empty" || c == "map-empty" {
-            empty = true;
-        }
-        if seq_like(p) && pos == "item" && seq_like(c) {
-            nested_seq = true;
-        }
-        if seq_like(p) && pos == "item" && map_like(c) {
-            map_in_seq = true;
-        }
-        if c == "str-multiline" {
-            block = true;
-        }
-    });
-    if empty {
-        return "empty-collection".into();
-    }
-    if nested_seq {
-        return "sequence-in-sequence".into();
-    }
-    if map_in_seq {
-        return "mapping-in-sequence".into();
-    }
-    if block {
-        return "block-scalar".into();
-    }
-    format!("other:{}", tygen::form(ty, v))
-}
-
-/// Option values still needed by the minimal case (indent step as `<2` / `>2`).
+/// The primary option value still needed by the minimal case: the indent step (as `<2` / `>2`)
+/// if it is not the default, else the first boolean that differs from the default, else the name
+/// of a numeric threshold that differs.
 pub fn opt_part(o: &Opt) -> String {
     let c = tygen::opt_class(o);
-    if c.is_empty() { "default-options".into() } else { c }
+    match c.split(',').next() {
+        Some(first) if !first.is_empty() => first.to_string(),
+        _ => "default-options".into(),
+    }
 }
 
 /// Deterministic: depends only on the minimal case.
 pub fn signature(min: &Minimal) -> String {
-    let t = trigger(&min.ty, &min.v);
+    let t = tygen::shape_trigger(&min.ty, &min.v);
     match t.as_str() {
         // classes defined by the shape alone (whatever options happen to be needed as well)
-        "tuple-struct" | "tuple-variant" | "string-with-carriage-return" | "key-longer-than-1024" => format!("C13:{t}"),
+        "tuple-struct" | "tuple-variant" | "string-with-carriage-return" | "key-longer-than-1024" | "block-scalar-with-leading-space" => {
+            format!("C13:{t}")
+        }
         _ => format!("C13:{t}:{}", opt_part(&min.o)),
     }
 }
